@@ -85,6 +85,13 @@ def sys_list(n, defs, sys_id, field):
 
 
 def run(ctx):
+    loop_shell(ctx)
+    # the encoding clauses (C04) are prerequisites of exactness: re-evaluated here, reported under their own rule ids
+    from . import c04
+    c04.run(ctx)
+
+
+def loop_shell(ctx):
     ctx.rule("R02.1", "in the step loop of bmc: the loop asserting get_signal_at(c, k) for every constraint dominates every check_assuming; init_at(.., 0) dominates the loop; unroll is called exactly once per iteration, unconditionally, after the queries")
     ctx.rule("R02.2", "every step argument of get_signal_at in bmc is the loop variable; the loop ranges over 0..=k_max")
     ctx.rule("R02.3", "ModelCheckResult::Fail is constructed only under res == Sat where res is the check_assuming result of the same iteration, with a witness from get_witness(.., k, ..); Success only after the loop and under bad_states.is_empty()")
@@ -211,9 +218,6 @@ def run(ctx):
     for i, c_ in enumerate(checks):
         mode, why = queried(c_, ix, defs, sys_id, k_id)
         ctx.inst("R02.5", "bmc:check#%d:props" % (i + 1), mode is not None, c_["sp"], "query `%s`: %s" % (show(c_)[:100], why), sample={"mode": mode})
-    # the encoding clauses (C04) are prerequisites of exactness: re-evaluated here, reported under their own rule ids
-    from . import c04
-    c04.run(ctx)
 
 
 def binding_of_pat(p):
